@@ -32,6 +32,18 @@ ASSUMPTIONS = ["geometry (projection points, relative positions, dist_obs) is ta
 
 
 def gen_case(rng, i, tier):
+    if i % 12 == 5:
+        # linked parallel carriageways with a change of carriageway bridged by non-emitting states (shaped class of C04/C06)
+        case = gen.gen_carriageway_case(rng)
+        case["cfg"]["family"] = rng.choice(["distance", "distance", "simple"])
+        case["cfg"]["width"] = rng.choice([None, None, 2, 3])
+        case["cfg"]["agb"] = rng.random() < 0.5
+        if rng.random() < 0.5:
+            # sparser: drop the fix on the first carriageway's end, so that the change happens inside a non-emitting run
+            case["trace"] = [p_ for k_, p_ in enumerate(case["trace"]) if k_ != 3]
+        case["ops"] = gen.gen_history(rng, len(case["trace"]), case["cfg"]["width"], allow_cwd=False, max_ops=2)
+        case["carriageway"] = True
+        return case
     case = mcase.gen_mcase(rng, families=gen.FAMILIES_ALL, ne=(rng.random() < 0.7), width="maybe", tighten_p=0.2, sparse_p=0.35, max_obs=9)
     if rng.random() < 0.15:
         from .C05 import to_latlon
